@@ -350,7 +350,19 @@ func (p *Program) snapCell(g *ssa.Global) *value {
 	return c
 }
 
-func (w *world) globalAddr(g *ssa.Global) *value {
+// isHarnessFn reports whether fn is harness code (a virtual zz_verif_ file):
+// harness code may initialise a global of a package whose init was skipped.
+func (p *Program) isHarnessFn(fn *ssa.Function) bool {
+	for f := fn; f != nil; f = f.Parent() {
+		if pos := f.Pos(); pos.IsValid() {
+			name := p.prog.Fset.Position(pos).Filename
+			return strings.Contains(name, "zz_verif_")
+		}
+	}
+	return false
+}
+
+func (w *world) globalAddr(g *ssa.Global, from *ssa.Function) *value {
 	if r, ok := w.globals[g]; ok {
 		return r
 	}
@@ -359,7 +371,7 @@ func (w *world) globalAddr(g *ssa.Global) *value {
 	if w.cloneMemo == nil || (g.Pkg != nil && sharedGlobalsPkg(g.Pkg.Pkg.Path())) {
 		r = snap // init phase, or shared
 	} else {
-		if g.Pkg != nil && w.p.initSkipped[g.Pkg] && isNilLike(*snap) && !strings.HasSuffix(g.Name(), "init$guard") {
+		if g.Pkg != nil && w.p.initSkipped[g.Pkg] && isNilLike(*snap) && !strings.HasSuffix(g.Name(), "init$guard") && !w.p.isHarnessFn(from) {
 			panic(unsupported(fmt.Sprintf("read of global %s of a package whose init was not run", g)))
 		}
 		r = w.cloneCell(snap)
